@@ -1,4 +1,5 @@
 import StunVerif.Props.C02
+import StunVerif.Props.C02Causes
 #print axioms StunVerif.C02.parse_iff
 #print axioms StunVerif.C02.split_unique
 #print axioms StunVerif.C02.parse_faithful
@@ -8,3 +9,5 @@ import StunVerif.Props.C02
 #print axioms StunVerif.C02.cause_not_stun
 #print axioms StunVerif.C02.cause_length
 #print axioms StunVerif.C02.cause_after
+#print axioms StunVerif.C02.cause_admissible
+#print axioms StunVerif.C02.causes_nil_iff
